@@ -7,7 +7,8 @@ import prog, gen_c, coexec
 def csem_request(mode, p, vals, arrs, fuel=60000):
     segs = gen_c.program_tokens(p)
     vs = " ".join("%s:%d=%d" % (n, b, v) for (n, b, v) in vals)
-    as_ = " ".join("%s=%s" % (n, ",".join(str(x) for x in xs)) for n, xs in arrs)
+    wide = {name for (ct, name, n, q) in p.decls if n and "short" in ct}
+    as_ = " ".join("%s%s=%s" % (n, ":16" if n in wide else "", ",".join(str(x) for x in xs)) for n, xs in arrs)
     return "csem %s %d / %s / %s / %s" % (mode, fuel, vs, as_, " / ".join(" ".join(s) for s in segs))
 
 
@@ -36,7 +37,7 @@ def decl_info(p):
     sc, ar = [], []
     for (ct, name, n, q) in p.decls:
         if n:
-            ar.append((name, n))
+            ar.append((name, n, 16 if "short" in ct else 8))
         else:
             sc.append((name, 16 if "short" in ct else 8))
     return sc, ar
@@ -55,14 +56,19 @@ def make_state(rs, p, regions, small_regs):
         mem[cell] = v & 0xFF
         if b == 16:
             mem[cell + 1] = v >> 8
-    for (n, ln) in ar:
-        xs = [rs.randrange(256) for _ in range(ln)]
+    for (n, ln, b) in ar:
+        if b == 16:
+            xs = [rs.choice([0, 1, 255, 256, 257, 32768, 65535, rs.randrange(65536)]) for _ in range(ln)]
+        else:
+            xs = [rs.randrange(256) for _ in range(ln)]
         arrs.append((n, xs))
         a, nb, info = regions[n]
         cell = a + 0x80 if info["mem"] == "superchip" else a
         for i, x in enumerate(xs):
-            mem[cell + i] = x
-    lim = min([ln for _, ln in ar] + [256]) if small_regs else 256
+            mem[cell + i] = x & 0xFF
+            if b == 16:                 # two byte planes: the low bytes, then the high bytes
+                mem[cell + ln + i] = x >> 8
+    lim = min([ln for _, ln, _ in ar] + [256]) if small_regs else 256
     x, y = rs.randrange(lim), rs.randrange(lim)
     vals += [("X", 8, x), ("Y", 8, y)]
     return vals, arrs, mem, x, y
@@ -96,7 +102,10 @@ def observed(res, p, regions):
         c = cells.get(n, b"\0\0")
         vals[n] = c[0] + (c[1] << 8 if b == 16 else 0)
     vals["X"], vals["Y"] = res["X"], res["Y"]
-    arrs = {n: list(cells.get(n, b"")) for (n, ln) in ar}
+    arrs = {}
+    for (n, ln, b) in ar:
+        c = list(cells.get(n, b""))
+        arrs[n] = c if b == 8 else [c[i] + (c[ln + i] << 8) for i in range(ln)] if len(c) >= 2 * ln else c
     return vals, arrs
 
 
